@@ -49,6 +49,9 @@ type Contract struct {
 	NoPanic  bool
 	Inline   bool
 	Trusted  bool // assumed, not verified (listed in the evidence as an assumption)
+	Derived  string
+	HavocOnly bool
+	Alias    []string // positional parameter names of the interface method (receiver first)
 	Iface    bool // contract of an interface method (hooks, external keepers)
 	DecAbs   bool
 	Foralls  map[string]smt.Sort // implicitly universally quantified identifiers
@@ -71,10 +74,10 @@ type Define struct {
 
 type AggSpec struct {
 	Name    string
+	Params  []string
 	Table   string
 	RowType string // "types.Debt"
 	Value   ast.Expr
-	Group   []ast.Expr
 	PkgPath string
 	File    string
 }
@@ -241,7 +244,12 @@ func (ss *SpecSet) directive(cur **Contract, pkgPath, file string, ln int, body 
 		if m := nameRe.FindStringSubmatch(rest); m != nil && !strings.Contains(m[1], "==") {
 			c.Name, c.Src = m[1], m[2]
 		} else {
-			c.Name = fmt.Sprintf("L%d", ln)
+			// unnamed clauses are numbered within their contract (stable under edits elsewhere)
+			n := 1
+			if *cur != nil {
+				n = len((*cur).Requires) + len((*cur).Ensures) + len((*cur).OnPanic) + 1
+			}
+			c.Name = fmt.Sprintf("%s%d", word[:3], n)
 		}
 		if i := strings.Index(c.Name, "/"); i > 0 {
 			for _, t := range strings.Split(c.Name[:i], ",") {
@@ -317,6 +325,19 @@ func (ss *SpecSet) directive(cur **Contract, pkgPath, file string, ln int, body 
 		if *cur != nil {
 			(*cur).Trusted = true
 		}
+	case "havoc-only":
+		// `modifies world` with no ensures: the weakest contract, sound without proof
+		if *cur != nil {
+			(*cur).Trusted = true
+			(*cur).HavocOnly = true
+		}
+	case "derived":
+		// a contract that is not checked against a body but follows from a stated rule
+		// over other, checked contracts (e.g. module-private delta invariants for hooks)
+		if *cur != nil {
+			(*cur).Trusted = true
+			(*cur).Derived = rest
+		}
 	case "nopanic":
 		(*cur).NoPanic = true
 	case "inline":
@@ -363,26 +384,23 @@ func (ss *SpecSet) directive(cur **Contract, pkgPath, file string, ln int, body 
 		}
 		ss.Defines[d.Name] = d
 	case "aggregate":
-		// aggregate <name> table <id> row <pkg.Type> value <expr> [group <expr>{; <expr>}]
+		// aggregate <name>[(p0,p1)] table <id> row <pkg.Type> value <expr over row, key0.., params>
 		a := &AggSpec{PkgPath: pkgPath, File: file}
 		f := strings.Fields(rest)
 		if len(f) < 7 || f[1] != "table" || f[3] != "row" || f[5] != "value" {
-			return fail(fmt.Errorf("aggregate <name> table <id> row <type> value <expr> [group <exprs>]"))
+			return fail(fmt.Errorf("aggregate <name>[(params)] table <id> row <type> value <expr>"))
 		}
 		a.Name, a.Table, a.RowType = f[0], f[2], f[4]
-		tail := strings.TrimSpace(rest[strings.Index(rest, " value ")+7:])
-		val := tail
-		if g := strings.Index(tail, " group "); g >= 0 {
-			val = tail[:g]
-			for _, ge := range strings.Split(tail[g+7:], ";") {
-				e, err := parser.ParseExpr(strings.TrimSpace(ge))
-				if err != nil {
-					return fail(err)
+		if j := strings.Index(a.Name, "("); j >= 0 {
+			for _, p := range strings.Split(strings.TrimSuffix(a.Name[j+1:], ")"), ",") {
+				if p = strings.TrimSpace(p); p != "" {
+					a.Params = append(a.Params, p)
 				}
-				a.Group = append(a.Group, e)
 			}
+			a.Name = a.Name[:j]
 		}
-		e, err := parser.ParseExpr(strings.TrimSpace(val))
+		val := strings.TrimSpace(rest[strings.Index(rest, " value ")+7:])
+		e, err := parser.ParseExpr(val)
 		if err != nil {
 			return fail(err)
 		}
@@ -837,6 +855,110 @@ func (ev *evalEnv) call(x *ast.CallExpr) tval {
 			return tval{ex.ctxTime(ev.ctxArg(x, 0)), intT}
 		case "blockHeight":
 			return tval{ex.ctxHeight(ev.ctxArg(x, 0)), intT}
+		case "sumOver", "allOf", "anyOf", "firstWhere":
+			// sumOver(xs, x, expr) ; allOf(xs, x, cond) ; anyOf(xs, x, cond) ;
+			// firstWhere(xs, x, cond, expr, default)
+			coll := ev.eval(x.Args[0])
+			id2, ok := x.Args[1].(*ast.Ident)
+			if !ok {
+				ev.fail(x, "second argument must be an identifier")
+			}
+			// Opaque reading: over a symbolic collection that this path never looked into,
+			// the fold is an uninterpreted function of the collection's identity and of the
+			// scalar variables the body mentions (definitions are revealed only where the
+			// code itself iterates the collection, i.e. in the type-level proofs).
+			if lz, isLazy := ex.force(coll.V).(*LazyV); isLazy && !ex.revealed(lz) {
+				args := append([]*smt.Term{}, lz.Nm.Keys...)
+				for _, fv := range freeIdents(x.Args[2:], id2.Name) {
+					if v, ok := ev.lookup(fv); ok {
+						if t, ok := v.V.(*smt.Term); ok {
+							args = append(args, t)
+						}
+					}
+				}
+				srt := smt.Int
+				if id.Name == "allOf" || id.Name == "anyOf" {
+					srt = smt.Bool
+				}
+				var sb strings.Builder
+				for _, a := range x.Args[1:] {
+					writeExpr(&sb, a)
+					sb.WriteString(";")
+				}
+				name := "spec!" + id.Name + "{" + sb.String() + "}@" + lz.Nm.Prefix
+				rt := intT
+				if srt == smt.Bool {
+					rt = boolT
+				}
+				return tval{smt.App(name, srt, args...), rt}
+			}
+			sl := ex.forceSlice(ex.force(coll.V))
+			var et types.Type
+			if coll.T != nil {
+				if st, ok := coll.T.Underlying().(*types.Slice); ok {
+					et = st.Elem()
+				}
+			}
+			saved, had := ev.vars[id2.Name]
+			savedO, hadO := ev.oldVars[id2.Name]
+			defer func() {
+				if had {
+					ev.vars[id2.Name] = saved
+				} else {
+					delete(ev.vars, id2.Name)
+				}
+				if hadO {
+					ev.oldVars[id2.Name] = savedO
+				} else {
+					delete(ev.oldVars, id2.Name)
+				}
+			}()
+			bind := func(i int) {
+				v := tval{copyVal(ex.force(sl.Arr.Elems[sl.Off+i].V)), et}
+				ev.vars[id2.Name] = v
+				ev.oldVars[id2.Name] = v
+			}
+			switch id.Name {
+			case "sumOver":
+				r := smt.IntC(0)
+				for i := 0; i < sl.Len; i++ {
+					bind(i)
+					r = smt.Add(r, ex.term(ev.eval(x.Args[2]).V))
+				}
+				return tval{r, intT}
+			case "allOf":
+				r := smt.True
+				for i := 0; i < sl.Len; i++ {
+					bind(i)
+					r = smt.And(r, ex.term(ev.eval(x.Args[2]).V))
+				}
+				return tval{r, boolT}
+			case "anyOf":
+				r := smt.False
+				for i := 0; i < sl.Len; i++ {
+					bind(i)
+					r = smt.Or(r, ex.term(ev.eval(x.Args[2]).V))
+				}
+				return tval{r, boolT}
+			default:
+				r := ex.term(ev.eval(x.Args[4]).V)
+				for i := sl.Len - 1; i >= 0; i-- {
+					bind(i)
+					c := ex.term(ev.eval(x.Args[2]).V)
+					r = smt.Ite(c, ex.term(ev.eval(x.Args[3]).V), r)
+				}
+				return tval{r, intT}
+			}
+		case "keeperOf": // keeperOf("commitment"): the keeper value of module x/<name>
+			name := ex.term(ev.eval(x.Args[0]).V).Name
+			for _, p := range ex.Cfg.Prog.AllPackages() {
+				if p.Pkg.Path() == elysMod+"/x/"+name+"/keeper" {
+					if tn, ok := p.Pkg.Scope().Lookup("Keeper").(*types.TypeName); ok {
+						return tval{ex.symbolic(tn.Type(), Namer{Prefix: "keeper!" + typeString(tn.Type())}), tn.Type()}
+					}
+				}
+			}
+			ev.fail(x, "no keeper package for module %s", name)
 		case "unchanged": // unchanged(ctx): the whole world equals the pre-state world
 			c := ev.ctxArg(x, 0)
 			return tval{smt.BoolC(len(c.W.Log) == ev.oldLogLen()), boolT}
@@ -910,6 +1032,9 @@ func (ev *evalEnv) call(x *ast.CallExpr) tval {
 				var g []*smt.Term
 				for _, ge := range x.Args[1:] {
 					g = append(g, ex.term(ev.eval(ge).V))
+				}
+				if len(g) != len(a.Params) {
+					ev.fail(x, "aggregate %s expects %d parameters after the context", a.Name, len(a.Params))
 				}
 				return tval{ex.aggValue(c.W, a.Name, g), intT}
 			}
@@ -1028,4 +1153,56 @@ func (ev *evalEnv) ctxArg(x *ast.CallExpr, i int) *CtxV {
 		ev.fail(x, "argument %d is not a context", i)
 	}
 	return c
+}
+
+// freeIdents lists the identifiers mentioned in the expressions, except the bound one, in
+// order of first occurrence.
+func freeIdents(es []ast.Expr, bound string) []string {
+	var out []string
+	seen := map[string]bool{bound: true}
+	for _, e := range es {
+		ast.Inspect(e, func(n ast.Node) bool {
+			switch x := n.(type) {
+			case *ast.SelectorExpr:
+				// only the root of a selector chain is a variable
+				ast.Inspect(x.X, func(m ast.Node) bool {
+					if id, ok := m.(*ast.Ident); ok && !seen[id.Name] {
+						seen[id.Name] = true
+						out = append(out, id.Name)
+					}
+					return true
+				})
+				return false
+			case *ast.CallExpr:
+				for _, a := range x.Args {
+					out = append(out, freeIdentsSeen([]ast.Expr{a}, seen)...)
+				}
+				if sel, ok := x.Fun.(*ast.SelectorExpr); ok {
+					out = append(out, freeIdentsSeen([]ast.Expr{sel.X}, seen)...)
+				}
+				return false
+			case *ast.Ident:
+				if !seen[x.Name] {
+					seen[x.Name] = true
+					out = append(out, x.Name)
+				}
+			}
+			return true
+		})
+	}
+	return out
+}
+
+func freeIdentsSeen(es []ast.Expr, seen map[string]bool) []string {
+	var out []string
+	for _, e := range es {
+		ast.Inspect(e, func(n ast.Node) bool {
+			if id, ok := n.(*ast.Ident); ok && !seen[id.Name] {
+				seen[id.Name] = true
+				out = append(out, id.Name)
+			}
+			return true
+		})
+	}
+	return out
 }
